@@ -10,7 +10,7 @@
      src/client_side.cc clientProcessRequest  mustReplyToOptions  => 501 (ERR_UNSUP_REQ), nothing forwarded
      src/client_side_request.cc clientInterpretRequestHeaders   flags.loopDetected
      src/client_side_reply.cc clientGetMoreData (TRACE + Max-Forwards 0 => traceReply), identifyStoreObject,
-                                              identifyFoundObject, cacheHit, processExpired, processMiss (403 on loop)
+                                              identifyFoundObject, cacheHit (stale + loopDetected => processMiss), processExpired, processMiss (403 on loop)
      src/http.cc copyOneHeaderFromClientsideRequestToUpstreamRequest, case MAX_FORWARDS; httpBuildRequestHeader addVia
 
    Not modelled (inputs of the decision instead): the store lookup and the freshness verdict of refreshCheckHTTP
@@ -155,7 +155,8 @@ Definition process_miss (c : cfg) (m : meth) (major minor : N) (hs : list hdr) :
   if loop_detected c hs then Local st_forbidden
   else Forward false (fwd_mfs m hs) (fwd_via c major minor hs).
 
-(* clientReplyContext::processExpired: flags.loopDetected is not consulted; the revalidation request goes to FwdState *)
+(* clientReplyContext::processExpired: flags.loopDetected is not consulted here (cacheHit tests it before calling);
+   the revalidation request goes to FwdState *)
 Definition process_expired (c : cfg) (m : meth) (major minor : N) (hs : list hdr) : outcome :=
   Forward true (fwd_mfs m hs) (fwd_via c major minor hs).
 
@@ -179,7 +180,8 @@ Definition handle (c : cfg) (m : meth) (major minor : N) (cache : cstate) (nocac
           (* cacheHit *)
           match found with
           | CStale =>                                                (* refreshCheckHTTP(e, r) *)
-              if nocache then process_miss c m major minor hs
+              if loop_detected c hs then process_miss c m major minor hs   (* "Forwarding loop detected. Do MISS" *)
+              else if nocache then process_miss c m major minor hs
               else process_expired c m major minor hs
           | _ => Local st_ok                                         (* plain old HIT *)
           end
